@@ -86,6 +86,9 @@ def classify_producer(x, case, witness):
         return "missing-producer"
     if len(ps) > 1:
         return "several-producers"
+    if not any(o["oid"] == oid for o in x["nodes"][ps[0]]["objects"]):
+        # the one parent does not even have the object: the dependency was resolved for another object of the test
+        return "wrong-object-after-narrowing"
     return "wrong-producer"
 
 
@@ -114,6 +117,8 @@ def judge_graph(ctx, case, graph, x, lean_line, origin="real"):
     for clause, ws in spec.items():
         for w in ws[:3]:
             key = clause if clause != "producer" else classify_producer(x, case, w)
+            if clause == "edge-object" and not any(o["oid"] == gl._edge_oid(w[2]) for o in x["nodes"][w[1]]["objects"]):
+                key = "wrong-object-after-narrowing"
             if double_clone(x):
                 key = "double-clone"
             if key == "suite-not-wf":
